@@ -1283,6 +1283,7 @@ example :
     (apiRun evalInt { fs := exOWorld.fs, c := none } [.read exO { order := true }]).2.map outLineC =
       [[(0, "// x".toList), (1, "// y".toList)]] := by decide +kernel
 
+/- checked: each of the following depends on [propext, Classical.choice, Quot.sound] only
 #print axioms step_valid_counter
 #print axioms run_valid_counter
 #print axioms C08_history_writes
@@ -1298,6 +1299,7 @@ example :
 #print axioms ex_parse
 #print axioms ex_plain_probe
 #print axioms ex_commented_probe
+-/
 
 end C08api
 end DictIO
